@@ -15,7 +15,7 @@ bad = []
 for s in seeds:
     for c in checks:
         t = time.time()
-        p = subprocess.run(["./check", c, tier], cwd="/verif", env=dict(__import__("os").environ, VERIF_SEED=str(s)), capture_output=True, text=True)
+        p = subprocess.run(["./check", c, tier], cwd="/verif", env=dict(__import__("os").environ, VERIF_SEED=str(s), VERIF_OUT=__import__("os").environ.get("VERIF_OUT", "/tmp/multiseed.vpout")), capture_output=True, text=True)
         last = [l for l in p.stdout.splitlines() if l.startswith(c)][-1:] or [p.stdout[-200:]]
         print("seed=%d %s exit=%d %.0fs %s" % (s, c, p.returncode, time.time() - t, last[0]), flush=True)
         if p.returncode != 0:
